@@ -272,3 +272,85 @@ func mapView(n datamodel.Node, want map[string]string, nonMembers []string, viol
 		}
 	}
 }
+
+
+// dirOpOrders runs the four whole-directory operations (Length, a full
+// MapIterator listing, a full native listing, a lookup of every member) in
+// every order, each order on a freshly opened node, and demands that every
+// operation answers what the directory holds whatever ran before it on that
+// node: memoised state left behind by one operation must not change another's
+// answer. all=false runs the 6 orders in which two different operations precede
+// Length (the cheap tier); all=true all 24 permutations.
+func dirOpOrders(open func() (datamodel.Node, error), want map[string]string, all bool, viol func(sig, detail string)) (orders int) {
+	ops := []string{"Length", "MapIterator", "Iterator", "Lookups"}
+	var perms [][]int
+	var rec func(cur []int, used int)
+	rec = func(cur []int, used int) {
+		if len(cur) == len(ops) {
+			perms = append(perms, append([]int{}, cur...))
+			return
+		}
+		for i := range ops {
+			if used&(1<<uint(i)) == 0 {
+				rec(append(cur, i), used|1<<uint(i))
+			}
+		}
+	}
+	rec(nil, 0)
+	for _, pm := range perms {
+		if !all && pm[0] == 0 {
+			continue // Length first is what every other check does
+		}
+		if !all && !(pm[1] == 0 || pm[2] == 0) {
+			continue
+		}
+		n, err := open()
+		if err != nil {
+			viol("dir-open", err.Error())
+			return
+		}
+		orders++
+		var done []string
+		for _, o := range pm {
+			at := fmt.Sprintf("after %v on the same node", done)
+			switch ops[o] {
+			case "Length":
+				if got := n.Length(); got != int64(len(want)) {
+					viol("dir-length after-other-operations", fmt.Sprintf("Length()=%d want %d, %s", got, len(want), at))
+				}
+			case "MapIterator":
+				pairs, errs, term := iterateMap(n, 4*len(want)+16)
+				if !term || len(errs) > 0 || len(pairs) != len(want) {
+					viol("dir-iter after-other-operations MapIterator", fmt.Sprintf("listing yields %d pairs (errors %v, finished %v) want %d, %s", len(pairs), errs, term, len(want), at))
+				}
+				for _, p := range pairs {
+					if want[p.K] != p.V {
+						viol("dir-iter after-other-operations MapIterator", fmt.Sprintf("key %q yields %s want %s, %s", p.K, p.V, want[p.K], at))
+						break
+					}
+				}
+			case "Iterator":
+				if nd, ok := n.(nativeDir); ok {
+					pairs, term := iterateNative(nd, 4*len(want)+16)
+					if !term || len(pairs) != len(want) {
+						viol("dir-iter after-other-operations Iterator", fmt.Sprintf("native listing yields %d pairs (finished %v) want %d, %s", len(pairs), term, len(want), at))
+					}
+				}
+			case "Lookups":
+				for k, w := range want {
+					v, err := n.LookupByString(k)
+					if err != nil {
+						viol("dir-lookup after-other-operations", fmt.Sprintf("member %q: %v, %s", k, err, at))
+						break
+					}
+					if l, lerr := v.AsLink(); lerr != nil || l.String() != w {
+						viol("dir-lookup after-other-operations", fmt.Sprintf("member %q resolves to %v want %s, %s", k, l, w, at))
+						break
+					}
+				}
+			}
+			done = append(done, ops[o])
+		}
+	}
+	return
+}
